@@ -151,5 +151,295 @@ theorem thresholdGeneric_nodup (o : Cmp α) (C rows : Nat) (f : Nat → Nat → 
         exact hab rfl)
       (List.nodup_range (n := rows))
 
+/-! ### Vector kernels: the scalar epilogue over the per-column row indices -/
+
+/-- what the row loop of an arg-max kernel establishes: `x[col]` is a row holding the maximum of
+    column `col` -/
+def ColMax (o : Cmp α) (rows C : Nat) (f : Nat → Nat → α) (x : List Nat) : Prop :=
+  ∀ col, col < C → ∃ p, x[col]? = some p ∧ p < rows ∧
+    ∀ i, i < rows → o.le (f i col) (f p col) = true
+
+/-- the epilogue `for (col, row) in x.enumerate() { if take(data[row][col], best_score) {…} }`
+    returns a cell holding the largest value, whether it is seeded with a cell of the matrix or
+    with a value below everything at position (0, 0) -/
+theorem reduceCols_spec (o : Cmp α) (ht : o.Total) (rows C : Nat) (hrows : 0 < rows) (hC : 0 < C)
+    (f : Nat → Nat → α) (x : List Nat) (hlen : x.length = C) (hx : ColMax o rows C f x)
+    (take : α → α → Bool)
+    (htake1 : ∀ sc best, take sc best = true → o.le best sc = true)
+    (htake2 : ∀ sc best, take sc best = false → o.le sc best = true)
+    (init : Best α)
+    (hinit : (init.row < rows ∧ init.col < C ∧ init.score = f init.row init.col) ∨
+             (init.row = 0 ∧ init.col = 0 ∧ ∀ v, o.le init.score v = true)) :
+    HoldsMax o rows C f ((reduceCols take f x init).row, (reduceCols take f x init).col) := by
+  unfold reduceCols
+  have hstep1 : ∀ (s : Best α) (rc : Nat × Nat), o.le s.score
+      (if take (f rc.1 rc.2) s.score = true then (⟨rc.1, rc.2, f rc.1 rc.2⟩ : Best α) else s).score = true := by
+    intro s rc
+    cases hc : take (f rc.1 rc.2) s.score
+    · simpa using ht.refl _
+    · simpa using htake1 _ _ hc
+  have hstep2 : ∀ (s : Best α) (rc : Nat × Nat), o.le (f rc.1 rc.2)
+      (if take (f rc.1 rc.2) s.score = true then (⟨rc.1, rc.2, f rc.1 rc.2⟩ : Best α) else s).score = true := by
+    intro s rc
+    cases hc : take (f rc.1 rc.2) s.score
+    · simpa using htake2 _ _ hc
+    · simpa using ht.refl _
+  have hbest := foldl_best o ht (fun b : Best α => b.score) (fun rc : Nat × Nat => f rc.1 rc.2)
+    _ hstep1 hstep2 x.zipIdx init
+  have hinv := foldl_inv
+    (fun b : Best α => b = init ∨ (b.row < rows ∧ b.col < C ∧ b.score = f b.row b.col))
+    (fun (b : Best α) (rc : Nat × Nat) =>
+      if take (f rc.1 rc.2) b.score = true then (⟨rc.1, rc.2, f rc.1 rc.2⟩ : Best α) else b)
+    x.zipIdx init
+    (by
+      intro s rc hrc hs
+      cases hc : take (f rc.1 rc.2) s.score
+      · simpa using hs
+      · right
+        have hm := List.mem_zipIdx_iff_getElem?.1 hrc
+        have hlt : rc.2 < C := by
+          rw [← hlen]
+          exact (List.getElem?_eq_some_iff.1 hm).1
+        obtain ⟨p, hp1, hp2, _⟩ := hx rc.2 hlt
+        rw [hm] at hp1
+        cases hp1
+        simpa using ⟨hp2, hlt⟩)
+    (Or.inl rfl)
+  generalize List.foldl (fun (b : Best α) (rc : Nat × Nat) =>
+      if take (f rc.1 rc.2) b.score = true then (⟨rc.1, rc.2, f rc.1 rc.2⟩ : Best α) else b)
+      init x.zipIdx = b at hbest hinv ⊢
+  -- every cell is dominated by the final score
+  have hall : ∀ r c, r < rows → c < C → o.le (f r c) b.score = true := by
+    intro r c hr hc
+    obtain ⟨p, hp1, _, hp3⟩ := hx c hc
+    have hm : (p, c) ∈ x.zipIdx := List.mk_mem_zipIdx_iff_getElem?.2 hp1
+    exact ht.trans _ _ _ (hp3 r hr) (hbest.2 (p, c) hm)
+  have hvalid : (b.row < rows ∧ b.col < C ∧ b.score = f b.row b.col) → HoldsMax o rows C f (b.row, b.col) := by
+    rintro ⟨h1, h2, h3⟩
+    refine ⟨h1, h2, ?_⟩
+    intro r c hr hc
+    simpa [h3] using hall r c hr hc
+  rcases hinv with rfl | hv
+  · rcases hinit with hv | ⟨h1, h2, h3⟩
+    · exact hvalid hv
+    · refine ⟨by simpa [h1] using hrows, by simpa [h2] using hC, ?_⟩
+      intro r c hr hc
+      simp only [h1, h2]
+      exact ht.trans _ _ _ (hall r c hr hc) (h3 _)
+  · exact hvalid hv
+
+/-- one float lane down its column: seeded so that row 0 is taken, it ends on a row holding the
+    column maximum (`idx` = the `i as i32` round trip, exact below 2^32 rows) -/
+theorem lane_col (o : Cmp α) (ht : o.Total) (take : α → α → Bool)
+    (htake : ∀ s r, take s r = o.le s r) (g : Nat → α) (rows : Nat) (hrows : 0 < rows)
+    (hle : rows ≤ 4294967296) (p0 : Nat) (s0 : α) (hinit : take s0 (g 0) = true) :
+    (laneFold (laneStep take id (· % 4294967296)) g (List.range rows) (p0, s0)).1 < rows ∧
+    ∀ i, i < rows → o.le (g i)
+      (g (laneFold (laneStep take id (· % 4294967296)) g (List.range rows) (p0, s0)).1) = true := by
+  obtain ⟨n, rfl⟩ : ∃ n, rows = n + 1 := ⟨rows - 1, by omega⟩
+  have h := laneFold_argmax o.le ht.total ht.trans take id (· % 4294967296) (fun s v => s = v)
+    (fun _ => rfl) (by intro s v r hs; subst hs; exact htake _ _) g p0 s0 hinit n
+    (by intro i hi; exact Nat.mod_eq_of_lt (by omega))
+  exact ⟨h.1, h.2.2⟩
+
+/-! ### `argmax_f32_avx2` -/
+
+/-- facts about the regenerated tables of `argmax_f32_avx2`, by kernel evaluation: lane `l` of
+    register `k` reads column `off_k + l`, starts from row 0 of that column with index 0, and is
+    stored at `x[off_k + l]`; the compare is `s <= r`, the epilogue compare `score > best_score` -/
+theorem af32_tables :
+    af32LoadOffs.length = 4 ∧
+    (∀ col, col < 32 → af32LoadOffs.getD (col / 8) 0 + col % 8 = col) ∧
+    (∀ col, col < 32 → af32SInit.getD (col / 8) .zero = .row0 (col - col % 8)) ∧
+    (∀ col, col < 32 → af32PInit.getD (col / 8) .zero = .zero) ∧
+    storeAll 32 32 8 af32Stores (List.range 32) = List.range 32 ∧
+    af32AccFirst = true ∧ af32Rel = .le ∧ af32FinalRel = .gt := by decide
+
+theorem argmaxF32Avx2_spec (o : Cmp α) (ht : o.Total) (maxIndex rows : Nat)
+    (hle : rows ≤ 4294967296) (f : Nat → Nat → α) (p : Coord)
+    (h : argmaxF32Avx2 o maxIndex rows f = .ok (some p)) : HoldsMax o rows 32 f p := by
+  obtain ⟨t1, t2, t3, t4, t5, t6, t7, t8⟩ := af32_tables
+  unfold argmaxF32Avx2 at h
+  split at h
+  · cases h
+  split at h
+  · cases h
+  next hmi hrows =>
+  simp only [Except.ok.injEq, Option.some.injEq] at h
+  subst h
+  have hrows' : 0 < rows := Nat.pos_of_ne_zero hrows
+  -- the register file after the row loop
+  generalize hst : rowsRun (laneStep (af32Take o) id (· % 4294967296)) (af32Read f) rows (af32Init o f) = st
+  have hlen : (st.map (·.1)).length = 32 := by
+    rw [← hst, List.length_map, rowsRun_length]; simp [af32Init, t1]
+  have htake : ∀ s r, af32Take o s r = o.le s r := by
+    intro s r; simp [af32Take, t6, t7, Rel.eval]
+  have hcol : ∀ col, col < 32 → ∃ q, (st.map (·.1))[col]? = some q ∧ q < rows ∧
+      ∀ i, i < rows → o.le (f i col) (f q col) = true := by
+    intro col hc
+    have hinit : (af32Init o f)[col]? = some (0, f 0 col) := by
+      simp only [af32Init, t1, List.getElem?_map, List.getElem?_range hc, Option.map_some,
+        t3 col hc, t4 col hc, initIdx, initLane]
+      congr 3
+      omega
+    have hrd : (fun i => af32Read f i col) = fun i => f i col := by
+      funext i; simp only [af32Read]; rw [t2 col hc]
+    have hl := lane_col o ht (af32Take o) htake (fun i => f i col) rows hrows' hle 0 (f 0 col)
+      (by rw [htake]; exact ht.refl _)
+    refine ⟨_, ?_, hl.1, hl.2⟩
+    rw [← hst, List.getElem?_map, rowsRun_getElem?, hinit, hrd]
+    rfl
+  apply reduceCols_spec o ht rows 32 hrows' (by omega) f
+  · rw [storeAll_eq_map 0 32 8 af32Stores _ hlen, t5]; simp
+  · intro col hc
+    obtain ⟨q, hq1, hq2, hq3⟩ := hcol col hc
+    refine ⟨q, ?_, hq2, hq3⟩
+    rw [storeAll_eq_map 0 32 8 af32Stores _ hlen, t5, List.getElem?_map, List.getElem?_range hc]
+    simp only [Option.map_some, List.getD_eq_getElem?_getD, hq1, Option.getD_some]
+  · intro sc best hc
+    simp only [t8, Rel.eval] at hc
+    exact ht.le_of_lt hc
+  · intro sc best hc
+    simp only [t8, Rel.eval] at hc
+    exact ht.le_of_not_lt hc
+  · left; exact ⟨hrows', by show 0 < 32; omega, rfl⟩
+
+theorem argmaxF32Avx2_none_iff (o : Cmp α) (maxIndex rows : Nat) (f : Nat → Nat → α) :
+    argmaxF32Avx2 o maxIndex rows f = .ok none ↔ maxIndex ≤ 4294967295 ∧ rows = 0 := by
+  unfold argmaxF32Avx2
+  by_cases h1 : maxIndex > 4294967295
+  · simp [h1]; omega
+  · by_cases h2 : rows = 0
+    · simp [h1, h2]; omega
+    · simp [h1, h2]
+
+/-- the only panic is the explicit size guard -/
+theorem argmaxF32Avx2_panic_iff (o : Cmp α) (maxIndex rows : Nat) (f : Nat → Nat → α) :
+    (∃ e, argmaxF32Avx2 o maxIndex rows f = .error e) ↔ maxIndex > 4294967295 := by
+  unfold argmaxF32Avx2
+  by_cases h1 : maxIndex > 4294967295
+  · simp [h1]
+  · by_cases h2 : rows = 0 <;> simp [h1, h2]
+
+/-! ### `argmax_sse2` -/
+
+theorem sse2_tables :
+    sse2Lanes = 16 ∧ sse2LoadOffs.length = 4 ∧
+    (∀ s, s < 16 → sse2LoadOffs.getD (s / 4) 0 + s % 4 = s) ∧
+    (∀ s, s < 16 → sse2SInit.getD (s / 4) .zero = .best) ∧
+    (∀ s, s < 16 → sse2PInit.getD (s / 4) .zero = .zero) ∧
+    storeAll 16 16 4 sse2Stores (List.range 16) = List.range 16 ∧
+    sse2AccFirst = true ∧ sse2Rel = .le ∧ sse2FinalRel = .ge ∧ sse2BestInitNegInf = true := by
+  decide
+
+/-- one pass of the block loop stores, for each of its 16 columns, a row holding the column maximum -/
+theorem sse2Block_spec (o : Cmp α) (ht : o.Total) (hbot : ∀ v, o.le o.negInf v = true)
+    (rows : Nat) (hrows : 0 < rows) (hle : rows ≤ 4294967296) (f : Nat → Nat → α) (offset : Nat) :
+    (sse2Block o rows f offset).length = 16 ∧
+    ∀ k, k < 16 → ∃ q, (sse2Block o rows f offset)[k]? = some q ∧ q < rows ∧
+      ∀ i, i < rows → o.le (f i (offset + k)) (f q (offset + k)) = true := by
+  obtain ⟨t1, t2, t3, t4, t5, t6, t7, t8, _, _⟩ := sse2_tables
+  unfold sse2Block
+  generalize hst : rowsRun (laneStep (sse2Take o) id (· % 4294967296)) (sse2Read f offset) rows (sse2Init o f) = st
+  simp only [t1]
+  have hlen : (st.map (·.1)).length = 16 := by
+    rw [← hst, List.length_map, rowsRun_length]; simp [sse2Init, t2]
+  have htake : ∀ s r, sse2Take o s r = o.le s r := by
+    intro s r; simp [sse2Take, t7, t8, Rel.eval]
+  rw [storeAll_eq_map 0 16 4 sse2Stores _ hlen, t6]
+  refine ⟨by simp, ?_⟩
+  intro k hk
+  have hinit : (sse2Init o f)[k]? = some (0, o.negInf) := by
+    simp only [sse2Init, t2, List.getElem?_map, List.getElem?_range hk, Option.map_some,
+      t4 k hk, t5 k hk, initIdx, initLane]
+  have hrd : (fun i => sse2Read f offset i k) = fun i => f i (offset + k) := by
+    funext i; simp only [sse2Read]; rw [Nat.add_assoc, t3 k hk]
+  have hl := lane_col o ht (sse2Take o) htake (fun i => f i (offset + k)) rows hrows hle 0 o.negInf
+    (by rw [htake]; exact hbot _)
+  refine ⟨_, ?_, hl.1, hl.2⟩
+  rw [List.getElem?_map, List.getElem?_range hk]
+  simp only [Option.map_some, List.getD_eq_getElem?_getD, List.getElem?_map]
+  rw [← hst, rowsRun_getElem?, hinit, hrd]
+  rfl
+
+/-- the block loop fills `output` block by block -/
+theorem sse2Output_spec (B : Nat → List Nat) (hB : ∀ off, (B off).length = 16) (q : Nat) :
+    ∀ n, n ≤ q →
+      ((List.range n).foldl (fun out blk => writeAt out (blk * 16) (B (blk * 16)))
+        (List.replicate (16 * q) 0)).length = 16 * q ∧
+      ∀ col, col < 16 * n →
+        ((List.range n).foldl (fun out blk => writeAt out (blk * 16) (B (blk * 16)))
+          (List.replicate (16 * q) 0))[col]? = (B (col / 16 * 16))[col % 16]? := by
+  intro n
+  induction n with
+  | zero => intro _; exact ⟨by simp, by intro col h; omega⟩
+  | succ n ih =>
+    intro hn
+    obtain ⟨h1, h2⟩ := ih (by omega)
+    rw [List.range_succ, List.foldl_append]
+    generalize (List.range n).foldl (fun out blk => writeAt out (blk * 16) (B (blk * 16)))
+      (List.replicate (16 * q) 0) = out at h1 h2
+    simp only [List.foldl_cons, List.foldl_nil]
+    have hfit : n * 16 + (B (n * 16)).length ≤ out.length := by rw [hB, h1]; omega
+    refine ⟨by rw [length_writeAt _ _ _ hfit, h1], ?_⟩
+    intro col hcol
+    rw [getElem?_writeAt _ _ _ hfit, hB]
+    by_cases hc : col < n * 16
+    · simp only [hc, if_true]; exact h2 col (by omega)
+    · have h3 : col < n * 16 + 16 := by omega
+      have h4 : col / 16 = n := by omega
+      have h5 : col % 16 = col - n * 16 := by omega
+      simp only [hc, h3, if_false, if_true, h4, h5]
+
+theorem argmaxSse2_spec (o : Cmp α) (ht : o.Total) (hbot : ∀ v, o.le o.negInf v = true)
+    (q : Nat) (hq : 0 < q) (maxIndex rows : Nat) (hle : rows ≤ 4294967296)
+    (f : Nat → Nat → α) (p : Coord)
+    (h : argmaxSse2 o (16 * q) maxIndex rows f = .ok (some p)) : HoldsMax o rows (16 * q) f p := by
+  obtain ⟨t1, _, _, _, _, _, _, _, t9, _⟩ := sse2_tables
+  unfold argmaxSse2 at h
+  split at h
+  · cases h
+  split at h
+  · cases h
+  next hmi hrows =>
+  simp only [Except.ok.injEq, Option.some.injEq] at h
+  subst h
+  have hrows' : 0 < rows := Nat.pos_of_ne_zero hrows
+  have hB := fun off => (sse2Block_spec o ht hbot rows hrows' hle f off).1
+  have hq16 : 16 * q / 16 = q := Nat.mul_div_cancel_left q (by omega)
+  have hout := sse2Output_spec (fun off => sse2Block o rows f off) hB q q (Nat.le_refl _)
+  simp only [t1, hq16]
+  generalize (List.range q).foldl (fun out blk => writeAt out (blk * 16) (sse2Block o rows f (blk * 16)))
+    (List.replicate (16 * q) 0) = out at hout
+  apply reduceCols_spec o ht rows (16 * q) hrows' (by omega) f out hout.1
+  · intro col hc
+    obtain ⟨qq, hq1, hq2, hq3⟩ := (sse2Block_spec o ht hbot rows hrows' hle f (col / 16 * 16)).2
+      (col % 16) (Nat.mod_lt _ (by omega))
+    have hcol : col / 16 * 16 + col % 16 = col := by omega
+    rw [hcol] at hq3
+    exact ⟨qq, by rw [hout.2 col hc]; exact hq1, hq2, hq3⟩
+  · intro sc best hc
+    simpa [t9, Rel.eval] using hc
+  · intro sc best hc
+    simp only [t9, Rel.eval] at hc
+    exact ht.le_of_not_le hc
+  · right; exact ⟨rfl, rfl, hbot⟩
+
+theorem argmaxSse2_none_iff (o : Cmp α) (C maxIndex rows : Nat) (f : Nat → Nat → α) :
+    argmaxSse2 o C maxIndex rows f = .ok none ↔ maxIndex ≤ 4294967295 ∧ rows = 0 := by
+  unfold argmaxSse2
+  by_cases h1 : maxIndex > 4294967295
+  · simp [h1]; omega
+  · by_cases h2 : rows = 0
+    · simp [h1, h2]; omega
+    · simp [h1, h2]
+
+theorem argmaxSse2_panic_iff (o : Cmp α) (C maxIndex rows : Nat) (f : Nat → Nat → α) :
+    (∃ e, argmaxSse2 o C maxIndex rows f = .error e) ↔ maxIndex > 4294967295 := by
+  unfold argmaxSse2
+  by_cases h1 : maxIndex > 4294967295
+  · simp [h1]
+  · by_cases h2 : rows = 0 <;> simp [h1, h2]
+
 end C07
 end LMV
